@@ -161,7 +161,20 @@ def _back(a):
     bad = [e for e in I.events if e.kind in BAD_EVENTS]
     wr = written_fields(p, I)
     calls = set(c for (_, c) in I.call_edges)
-    return a, {"writes": sorted(wr), "bad": [repr(e) for e in bad[:5]],
+    waits = {}
+    if "L::machine::bus::Bus::read" in calls or "L::machine::bus::Bus::write" in calls:
+        for label, cell in (("ram", D.norm_rng(0, 0xEF)), ("io", D.norm_rng(0xF0, 0xFF))):
+            ov2 = machine_overrides(p, a, "Running", False, extra={"register.content": Arr([cell] * 8)})
+            st2 = absint.State()
+            ma2 = new_machine(p, I, st2, ov2)
+            cur2 = Agg((Ref(ma2, (), True),))
+            for s in STAGES:
+                cur2 = I.run_body(p.need_body(s), [cur2], st2, 0)
+                if cur2 is BOT:
+                    break
+            w2 = field(p, I, st2, ma2, "pending_wait_for_memory")
+            waits[label] = sorted(w2.vs) if isinstance(w2, En) else None
+    return a, {"writes": sorted(wr), "bad": [repr(e) for e in bad[:5]], "waits": waits,
                "bus_read": "L::machine::bus::Bus::read" in calls,
                "bus_write": "L::machine::bus::Bus::write" in calls,
                "prw": field(p, I, st, ma, "pending_register_write"),
